@@ -35,7 +35,8 @@ enum {
 	N_INTERIM, N_INTERIM_LONGER, N_BODY_AT_LIMIT, N_BODY_OVER_LIMIT, N_TOOBIG, N_BIGHDR, N_BOUNDARY, N_EARLY, N_MUT,
 	N_TRUNC, N_CHUNK_OVER_1M, N_HDR_OVER_4K, N_CONN_FAILED_ADDR, N_ALL_ADDR_FAILED, N_RST,
 	N_F_RECV_SHORT, N_F_RECV_EAGAIN, N_F_RECV_EINTR, N_F_SEND_SHORT, N_F_SEND_EAGAIN, N_F_SEND_EINTR, N_F_SPUR,
-	N_F_POLL_EINTR, N_F_ALLOC, N_POLLS, N_RUNS, N_LOOP_FAIL, N_SEGS, N_ONEBYTE, N_BYTES, N_CB_NONZERO, N_TLS, N_TLS_MIX
+	N_F_POLL_EINTR, N_F_ALLOC, N_POLLS, N_RUNS, N_LOOP_FAIL, N_SEGS, N_ONEBYTE, N_BYTES, N_CB_NONZERO, N_TLS, N_TLS_MIX,
+	N_KEEPALIVE
 };
 const char * const engine_counters[] = {
 	"requests", "callbacks", "callback_null", "callback_response", "probe_cancelled", "wellformed_responses",
@@ -47,7 +48,8 @@ const char * const engine_counters[] = {
 	"fault_recv_short", "fault_recv_eagain", "fault_recv_eintr", "fault_send_short", "fault_send_eagain",
 	"fault_send_eintr", "fault_poll_spurious", "fault_poll_eintr", "fault_alloc_failed", "polls", "events_run_calls",
 	"probe_loop_returned_error", "segments_delivered", "probe_single_byte_segments", "response_bytes",
-	"probe_callback_returned_nonzero", "requests_over_tls_stub", "probe_tls_and_plain_requests_in_one_process", NULL
+	"probe_callback_returned_nonzero", "requests_over_tls_stub", "probe_tls_and_plain_requests_in_one_process",
+	"probe_server_keeps_connection_open", NULL
 };
 
 #define AF_SINCE(before) (simalloc_failed != (before))
@@ -253,6 +255,12 @@ build_response(const struct plan * P, const struct pline * l, int is_final, int 
 				/* Content-Length, with leading zeros / trailing OWS sometimes */
 				int z = (int)(h64(hdrseed, 555) % 4);
 
+				if (h64(hdrseed, 557) % 8 == 0) {
+					/* RFC 2616: the identity transfer-coding changes nothing; Content-Length still frames the body */
+					bb_str(&RESP, "Transfer-Encoding: identity\r\n");
+					if (is_final)
+						record_header("Transfer-Encoding", "identity");
+				}
 				snprintf(tmp, sizeof(tmp), "%s%zu", z == 1 ? "00" : "", bodylen);
 				bb_str(&RESP, "Content-Length: ");
 				bb_str(&RESP, tmp);
@@ -385,7 +393,7 @@ apply_mutations(const struct pline * m)
 
 		R->cnt[N_MUT]++;
 		EX.known = 0;
-		switch (kind % 14) {
+		switch (kind % 15) {
 		case 0:	/* truncate */
 			RESP.n = pos;
 			R->cnt[N_TRUNC]++;
@@ -530,6 +538,26 @@ apply_mutations(const struct pline * m)
 					break;
 			bb_insert(&RESP, k + 2 <= RESP.n ? k + 2 : RESP.n, g, 18 + n);
 			free(g);
+			break;
+		}
+		case 14: {	/* server text that the client quotes in a warning, containing printf conversions */
+			static const char * const f[] = { "HTTP/1.1 %s%s%s%s%n two hundred\r\n", "HTTP/1.%d 2%c0 %n%n\r\n", "BOGUS %x%x%x%x%x%x%x%x%s\r\n",
+			    "Content-Length: %s%n\r\n", "Content-Length: 12%d\r\n" };
+			const char * t = f[b % 5];
+			size_t k;
+
+			for (k = 0; k + 2 <= RESP.n; k++)
+				if (memcmp(RESP.p + k, "\r\n", 2) == 0)
+					break;
+			if (b % 5 < 3) {
+				/* replaces the status line */
+				if (k + 2 <= RESP.n) {
+					memmove(RESP.p, RESP.p + k + 2, RESP.n - k - 2);
+					RESP.n -= k + 2;
+				}
+				bb_insert(&RESP, 0, t, strlen(t));
+			} else
+				bb_insert(&RESP, k + 2 <= RESP.n ? k + 2 : RESP.n, t, strlen(t));
 			break;
 		}
 		case 11:	/* swap CRLF for bare LF somewhere */
@@ -715,13 +743,18 @@ attach_server(struct vsock * vs)
 			ev[nev].need_tx = (int64_t)REQ.n;
 			nev++;
 		}
-		ev[nev].type = (endkind == 1) ? PE_RST : PE_EOF;
-		ev[nev].delay_ns = (uint64_t)plan_knob(PLAN, "end_delay_us", 0) * 1000;
-		ev[nev].arg = (endkind == 1) ? ECONNRESET : 0;
-		ev[nev].need_tx = -1;
-		if (endkind == 1)
-			R->cnt[N_RST]++;
-		nev++;
+		if (endkind == 2 && EX.known) {
+			/* a keep-alive server: the framing alone tells the client where the response ends */
+			R->cnt[N_KEEPALIVE]++;
+		} else {
+			ev[nev].type = (endkind == 1) ? PE_RST : PE_EOF;
+			ev[nev].delay_ns = (uint64_t)plan_knob(PLAN, "end_delay_us", 0) * 1000;
+			ev[nev].arg = (endkind == 1) ? ECONNRESET : 0;
+			ev[nev].need_tx = -1;
+			if (endkind == 1)
+				R->cnt[N_RST]++;
+			nev++;
+		}
 		vk_script(vs, ev, nev);
 		if (answered_early && nd > 0)
 			vk_script(vs, dr, nd);
@@ -825,11 +858,59 @@ issue_request(void)
 			R->cnt[N_TLS_MIX]++;
 	}
 	nissued++;
-	if (use_tls) {
-		R->cnt[N_TLS]++;
-		return (https_request(sas, &HREQ, maxrlen, http_callback, NULL, "server.example.org"));
+	{
+		/*
+		 * http.h: only the request *body* has to stay valid until the callback.  Everything else (the
+		 * request structure, method, path, header array and strings, the host name) is handed over in
+		 * short-lived heap copies which are overwritten and released as soon as the call returns; a pointer
+		 * kept by the library is then a use-after-free for the sanitizer.
+		 */
+		int d = simalloc_depth, i;
+		struct http_request * rq;
+		struct http_header * hs;
+		char * host;
+		void * c;
+		size_t nh = HREQ.nheaders;
+
+		simalloc_depth = 0;
+		rq = malloc(sizeof(*rq));
+		hs = malloc((nh + 1) * sizeof(*hs));
+		for (i = 0; i < (int)nh; i++) {
+			hs[i].header = strdup(HREQ.headers[i].header);
+			hs[i].value = strdup(HREQ.headers[i].value);
+		}
+		rq->method = strdup(HREQ.method);
+		rq->path = strdup(HREQ.path);
+		rq->nheaders = nh;
+		rq->headers = hs;
+		rq->bodylen = HREQ.bodylen;
+		rq->body = HREQ.body;
+		host = strdup("server.example.org");
+		simalloc_depth = d;
+		if (use_tls) {
+			R->cnt[N_TLS]++;
+			c = https_request(sas, rq, maxrlen, http_callback, NULL, host);
+		} else
+			c = http_request(sas, rq, maxrlen, http_callback, NULL);
+		simalloc_depth = 0;
+		for (i = 0; i < (int)nh; i++) {
+			memset((char *)(uintptr_t)hs[i].header, '#', strlen(hs[i].header));
+			memset((char *)(uintptr_t)hs[i].value, '#', strlen(hs[i].value));
+			free((char *)(uintptr_t)hs[i].header);
+			free((char *)(uintptr_t)hs[i].value);
+		}
+		memset((char *)(uintptr_t)rq->method, 'X', strlen(rq->method));
+		memset((char *)(uintptr_t)rq->path, 'X', strlen(rq->path));
+		memset(host, 'X', strlen(host));
+		free((char *)(uintptr_t)rq->method);
+		free((char *)(uintptr_t)rq->path);
+		free(host);
+		free(hs);
+		memset(rq, 0x5a, sizeof(*rq));
+		free(rq);
+		simalloc_depth = d;
+		return (c);
 	}
-	return (http_request(sas, &HREQ, maxrlen, http_callback, NULL));
 }
 
 static void
@@ -992,6 +1073,7 @@ engine_gen(struct plan * P, uint64_t seed, struct prng * g)
 	plan_add(P, "knob", "req_seed", 1, (int64_t)prng_n(g, 1000000));
 	plan_add(P, "knob", "fd_base", 1, (int64_t)(prng_chance(g, 15) ? 3 + prng_n(g, 100) : prng_chance(g, 10) ? 0 : 3));
 	plan_add(P, "knob", "syslog", 1, (int64_t)prng_chance(g, 20));
+	plan_add(P, "knob", "bare_err", 1, (int64_t)prng_chance(g, 25));
 	{
 		int chain = prng_chance(g, 12) ? 1 + (int)prng_n(g, 2) : 0;
 
@@ -1067,7 +1149,7 @@ engine_gen(struct plan * P, uint64_t seed, struct prng * g)
 
 		l = plan_add(P, "mut", "0", 0);
 		for (k = 0; k < nm; k++) {
-			static const int kinds[] = { 0, 0, 1, 2, 3, 4, 4, 4, 4, 5, 6, 6, 7, 7, 8, 9, 10, 11, 12, 13 };
+			static const int kinds[] = { 0, 0, 1, 2, 3, 4, 4, 4, 4, 5, 6, 6, 7, 7, 8, 9, 10, 11, 12, 13, 14, 14 };
 
 			pline_tok(l, 3, (int64_t)kinds[prng_n(g, sizeof(kinds) / sizeof(kinds[0]))], (int64_t)prng_n(g, 100000), (int64_t)prng_n(g, 100000));
 		}
@@ -1093,7 +1175,8 @@ engine_gen(struct plan * P, uint64_t seed, struct prng * g)
 	plan_add(P, "knob", "txwin", 1, (int64_t)(prng_chance(g, 30) ? 1 + prng_n(g, 64) : 65536));
 	plan_add(P, "knob", "drain", 1, (int64_t)(prng_chance(g, 30) ? prng_n(g, 64) : 65536));
 	plan_add(P, "knob", "early", 1, (int64_t)(prng_chance(g, 12)));
-	plan_add(P, "knob", "end", 1, (int64_t)(host && prng_chance(g, 10)));
+	/* end: 0 the server closes after the response, 1 it resets the connection, 2 it keeps the connection open (keep-alive) */
+	plan_add(P, "knob", "end", 1, (int64_t)(host ? prng_chance(g, 10) : ((framing == 0 || framing == 1) && prng_chance(g, 25)) ? 2 : 0));
 	plan_add(P, "knob", "end_delay_us", 1, (int64_t)(prng_chance(g, 50) ? 0 : prng_n(g, 5000)));
 	plan_add(P, "knob", "cancel_after", 1, (prng_chance(g, c09 ? 3 : 8) ? (int64_t)prng_n(g, 12) : (int64_t)-1));
 	{
@@ -1174,6 +1257,8 @@ engine_run(const struct plan * P)
 	simalloc_fill = (int)plan_knob(P, "fill", -1);
 	simalloc_fill_seed = 4242;
 	cancel_after = (int)plan_knob(P, "cancel_after", -1);
+	vk_block_oracle = "C08.live";
+	vk_bare_err = (int)plan_knob(P, "bare_err", 0) == 1;
 	cb_rc = (int)plan_knob(P, "cb_rc", 0);
 	use_tls = (int)plan_knob(P, "tls", 0) == 1;
 	tls_mix = (int)plan_knob(P, "tls", 0) >= 2 ? (int)plan_knob(P, "tls", 0) : 0;
@@ -1349,6 +1434,8 @@ engine_run(const struct plan * P)
 			break;
 		}
 	}
+	if (req_live && !loop_failed && simalloc_failed == 0 && EX.known && !all_addr_fail)
+		sim_viol("C09.status", "never", "well-formed response (status %d, %zu body bytes) fully delivered, but the callback never came", EX.status, EX.bodylen);
 	if (req_live && !loop_failed && simalloc_failed == 0)
 		sim_viol("C08.live", "never-finished", "the request did not finish within %d loop iterations although the server sent everything and closed", lim);
 	/* the loop failed (allocation failure): the library may or may not have destroyed the request */
